@@ -223,3 +223,9 @@ var _ = shared.NewCounter
 //@   callassert [request-state-built-under-the-lock C18] ProcessInit: i.lock.g_held
 //@   mustcall [lock-taken-before-processing C18] Lock when called("ProcessInit")
 //@   mustcall [lock-released-on-every-path C18] Unlock when called("ProcessInit")
+
+// ---- C09 (return actions only): comments do not change the action of a return statement ----------------------
+//@ func (*Interpreter).ProcessReturnStatement [C09]
+//@   requires stmt != nil
+//@   ensures [action-is-the-identifier C09] is(stmt.ReturnExpression, *ast.Ident) && stmt.ReturnExpression.(*ast.Ident) != nil ==> result == State(stmt.ReturnExpression.(*ast.Ident).Value)
+//@   ensures [bare-return C09] isnil(stmt.ReturnExpression) ==> result == BARE_RETURN
